@@ -298,6 +298,8 @@ class TheCheck(Check):
         sts.append(Stream("random", rs))
         # 8. comma number, IPv4 / e-mail tests, qstrtest, qstrdupf / qstrcatf, qstrunique
         sts += c19_more.streams(self)
+        from checks import mtpure
+        sts.append(mtpure.stream(self))      # hidden shared state shows only with concurrent callers
         return sts
 
     @staticmethod
